@@ -4,7 +4,9 @@ import (
 	"bytes"
 	"fmt"
 
+	"verif/harness/bind"
 	"verif/harness/enum"
+	rn "verif/harness/ref/name"
 	"verif/harness/ref/wire"
 )
 
@@ -341,4 +343,42 @@ func wire_nameLen(l [][]byte) int {
 		n += 1 + len(x)
 	}
 	return n
+}
+
+// genTails: names whose presentation form holds escapes, together with every name that is a tail of that
+// presentation text cut at an arbitrary octet (what an offset computed in the wrong coordinate system — text
+// instead of wire, a sub-slice instead of the string — would take for one of the name's suffixes).
+func genTails(yield func(m *wire.Msg, what string)) {
+	esc := [][][]byte{
+		{[]byte("a.example")},
+		{[]byte("first.last"), []byte("example"), []byte("org")},
+		{{0, 'z', 200}, []byte("example")},
+		{[]byte("a\\b.c"), []byte("d.e"), []byte("example")},
+		{[]byte("www"), {'x', 200, '.', 'y'}, []byte("fresh"), []byte("zone")},
+	}
+	for _, e := range esc {
+		text := bind.LibName(e)
+		seen := map[string]bool{}
+		for k := 1; k < len(text)-1; k++ {
+			p := rn.Parse(text[k:])
+			if !p.OK || !p.FQDN || p.Root || seen[string(rn.Wire(p.Labels))] {
+				continue
+			}
+			seen[string(rn.Wire(p.Labels))] = true
+			for _, tail := range [][][]byte{p.Labels, append([][]byte{[]byte("www")}, p.Labels...)} {
+				what := fmt.Sprintf("%s with tail %q", text, bind.LibName(tail))
+				m1 := &wire.Msg{ID: 7, Flags: 0x8400, Q: []wire.Question{{Name: e, Type: 2, Class: 1}}}
+				m1.Sec[0] = []wire.RR{mkRR(2, tail, tail)}
+				yield(m1, what+" (question, then NS tail → tail)")
+				m2 := &wire.Msg{ID: 7, Flags: 0x8400, Q: []wire.Question{{Name: tail, Type: 6, Class: 1}}}
+				m2.Sec[0] = []wire.RR{mkRR(6, e, e, e)}
+				m2.Sec[1] = []wire.RR{mkRR(2, tail, e), mkRR(2, e, tail)}
+				yield(m2, what+" (tail first, SOA with the name as owner, MNAME and RNAME, NS both ways)")
+				m3 := &wire.Msg{ID: 7, Flags: 0x8400, Q: []wire.Question{{Name: enum.L("q"), Type: 17, Class: 1}}}
+				m3.Sec[0] = []wire.RR{mkRR(17, enum.L("q"), e, e)}
+				m3.Sec[1] = []wire.RR{mkRR(2, tail, tail), mkRR(15, tail, e)}
+				yield(m3, what+" (the name only inside never-compressed RP RDATA, then NS and MX)")
+			}
+		}
+	}
 }
